@@ -542,6 +542,9 @@ def _r1(ctx):
     ctx.rule("R-C17-1", floor=60, what="accessor methods delegate to the plain function with s_ij <- column S<ij>")
     ci = prog.cls(EQ + ":StressTensorEquistress")
     n = 0
+    from ..inline import inlined
+    family = {k for k, f_ in prog.functions.items() if k.startswith(EQ + ":") and f_.cls is None and
+              list(f_.params)[:6] == ["s11", "s22", "s33", "s12", "s13", "s23"]}
     for name, defs in ci.methods.items():
         fi = defs[-1]
         target = "eigenval" if name == "principals" else name
@@ -551,11 +554,28 @@ def _r1(ctx):
         if tf is None:
             ctx.violated(fi, fi.node, "accessor method %s has no plain function %s" % (name, target), text=name)
             continue
-        cs = [c for c in calls_in(fi.node) if isinstance(c.func, ast.Name) and tf.key in prog.resolve_call(fi, c)]
-        if len(cs) != 1:
-            ctx.violated(fi, fi.node, "accessor method %s does not call the plain function %s exactly once" % (name, target),
-                         text=name)
+        f0 = fi
+        fi = inlined(prog, fi)              # the delegation may go through shared private helpers
+        # row by row: every pandas object the accessor constructs from array data carries the object's index (a Series with a
+        # fresh RangeIndex is aligned by label with the others and mis-pairs rows as soon as the index is not 0..n-1)
+        bare = [c for c in calls_in(fi.node) if call_name(c) in ("pd.Series", "pd.DataFrame", "pandas.Series", "pandas.DataFrame")
+                and not any(k.arg == "index" and norm_text(k.value) == "self._obj.index" for k in c.keywords)]
+        for c in bare:
+            ctx.violated(f0, c, "%s builds %s without index=self._obj.index: its rows are re-paired by label with the object's rows"
+                         % (name, call_name(c)), text="%s bare %s" % (name, call_name(c)))
+        if bare:
             continue
+        allc = [(c, set(prog.resolve_call(f0, c)) & family) for c in calls_in(fi.node) if isinstance(c.func, ast.Name)]
+        allc = [(c, ks) for c, ks in allc if ks]
+        cs = [c for c, ks in allc if tf.key in ks]
+        if len(cs) != 1:
+            other = [sorted(ks)[0] for c, ks in allc if tf.key not in ks]
+            if other and not cs:
+                ctx.violated(f0, f0.node, "accessor method %s delegates to %s instead of the plain function %s" %
+                             (name, other[0].split(":")[-1], target), text=name)
+                continue
+            raise AnalysisError("accessor method %s: the call of the plain function %s not found (%d candidates)" %
+                                (name, target, len(cs)))
         c = cs[0]
         binding = {}
         for i, a in enumerate(c.args):
@@ -579,7 +599,7 @@ def _r1(ctx):
                              text="%s %s<-%s" % (name, p, col))
         # result wrapping: name / index
         if name == "principals":
-            d = [x for x in ast.walk(fi.node) if isinstance(x, ast.Dict)]
+            d = [x for x in ast.walk(fi.node) if isinstance(x, ast.Dict) and any(const_value(k_) == "min_principal" for k_ in x.keys if k_ is not None)]
             ok = False
             if d:
                 m = {const_value(k): norm_text(v.slice) for k, v in zip(d[0].keys, d[0].values) if isinstance(v, ast.Subscript)}
